@@ -237,6 +237,22 @@ class Ctx(object):
             self.samples.append({'part': part, 'case': codec.enc(s)})
 
 
+REPLAY_TEST = '''"""Plain unit test replaying one recorded violation without the explorer.
+Run: PYTHONPATH=/repo/src:%(root)s /venv/bin/python -m pytest %(root)s/replays/%(id)s/test_replay_%(sha)s.py"""
+import json, sys
+sys.path.insert(0, %(root)r)
+from mc import codec
+import importlib
+
+
+def test_replay_%(sha)s():
+    doc = json.load(open(%(path)r))
+    mod = importlib.import_module('props.' + %(id)r.lower())
+    failures = mod.replay(doc['part'], codec.dec(doc['case']))
+    assert not failures, failures
+'''
+
+
 # -- known findings ---------------------------------------------------------
 
 def load_findings():
@@ -323,6 +339,8 @@ def finish(ctx, mod):
             print("HARNESS-ERROR property=%s violation did not reproduce on re-execution: %s"
                   % (ctx.id, path))
             continue
+        with open(os.path.join(rdir, 'test_replay_%s.py' % sha), 'w') as f:
+            f.write(REPLAY_TEST % {'root': ROOT, 'id': ctx.id, 'path': path, 'sha': sha})
         print("VIOLATION property=%s replay=%s" % (ctx.id, path))
         print("  part=%s signature=%s" % (part, json.dumps(sig, sort_keys=True)))
         print("  detail=%s" % json.dumps(codec.enc(detail), sort_keys=True)[:600])
